@@ -37,7 +37,7 @@ Calls == {"sel_name", "sel_field", "sel_list", "sel_raw", "sel_expr", "distinct"
           "where_age", "where_id", "order_name", "order_agedesc", "order_col_id_desc", "order_reorder_tag", "order_empty",
           "order_expr", "limit_m1", "limit_0", "limit_2", "limit_5", "offset_m1", "offset_0", "offset_3",
           "group_name", "group_age", "having_cnt", "having_age", "lock_update", "lock_share"}
-Fins == {"find", "take", "first", "last", "count"}
+Fins == {"find", "take", "first", "last", "count", "delete"}
 
 NoExpr == [sql |-> "", vars |-> <<>>, dist |-> FALSE]
 Empty == [cols |-> <<>>, hasSx |-> FALSE, sexpr |-> NoExpr, dist |-> FALSE, omits |-> <<>>, where |-> <<>>, group |-> <<>>,
@@ -145,7 +145,15 @@ Render(s) ==
    vars |-> SelVars(s) \o VarsOf(s.where) \o VarsOf(s.having)
             \o (IF s.hasOrd /\ s.hasOx THEN s.oexpr.vars ELSE <<>>) \o (IF s.hasLim THEN LimVars(s) ELSE <<>>)]
 
-Expected(calls, fin) == Render(Finish(Fold(Empty, calls), fin))
+\* Delete builds DELETE FROM ... WHERE from the conditions alone (every other clause of the chain is ignored by
+\* the delete statement) and refuses to run without a condition
+RenderDelete(s) ==
+  [sql |-> "DELETE FROM " \o Q(Table) \o (IF Len(s.where) > 0 THEN " WHERE " \o Join(Sqls(s.where), " AND ") ELSE ""),
+   vars |-> VarsOf(s.where),
+   err |-> IF Len(s.where) > 0 THEN "nil" ELSE "WHERE conditions required"]
+Expected(calls, fin) ==
+  IF fin = "delete" THEN RenderDelete(Fold(Empty, calls))
+  ELSE Render(Finish(Fold(Empty, calls), fin)) @@ [err |-> "nil"]
 
 (***************************************************************************)
 (* Exhaustive exploration: every chain of at most MaxLen calls.  The       *)
